@@ -97,6 +97,8 @@ pub struct Opts {
     pub watchdog: Duration,
     /// scale factor on random case counts (env OXV_SCALE), for experiments
     pub scale: f64,
+    /// OXV_EXPLORE=1: tally all violation signatures instead of stopping at the first
+    pub explore: bool,
 }
 
 impl Opts {
@@ -135,6 +137,7 @@ impl Opts {
             threads,
             watchdog,
             scale,
+            explore: std::env::var("OXV_EXPLORE").map(|v| v == "1").unwrap_or(false),
         }
     }
     pub fn is_known(&self, prop: &str, sig: &str) -> Option<&KnownFinding> {
@@ -186,6 +189,7 @@ struct Agg {
     samples_nt: Vec<Value>,
     samples_tr: Vec<Value>,
     infra: Vec<String>,
+    explore: BTreeMap<String, (u64, String, String)>,
 }
 
 /// Outcome of evaluating one case.
@@ -214,6 +218,10 @@ fn eval_case<P: Prop>(
             if count {
                 *local.known_hits.entry(sig.clone()).or_insert(0) += 1;
             }
+        } else if opts.explore {
+            // exploration mode (OXV_EXPLORE=1): tally every signature, never stop
+            let e = local.explore.entry(sig.clone()).or_insert((0, detail.clone(), json.to_string()));
+            e.0 += 1;
         } else if violation.is_none() {
             violation = Some((sig.clone(), detail.clone()));
         }
@@ -271,6 +279,10 @@ fn merge(into: &mut Agg, from: Agg) {
         }
     }
     into.infra.extend(from.infra);
+    for (k, v) in from.explore {
+        let e = into.explore.entry(k).or_insert((0, v.1.clone(), v.2.clone()));
+        e.0 += v.0;
+    }
 }
 
 pub fn write_replay<P: Prop>(
@@ -510,6 +522,10 @@ pub fn run_part<P: Prop>(opts: &Opts) -> PartReport {
     report.samples = agg.samples_nt;
     report.samples.extend(agg.samples_tr);
     report.infra_errors = agg.infra;
+    for (sig, (n, detail, js)) in &agg.explore {
+        out(&format!("EXPLORE {} {} x{}: {}", P::ID, sig, n, detail.chars().take(400).collect::<String>()));
+        let _ = write_replay::<P>(opts, js, sig, detail);
+    }
     report.violations = std::mem::take(&mut *violations.lock().unwrap());
     report
 }
